@@ -44,6 +44,7 @@ fn handle(req: &J) -> J {
     "format" => syntaxmode::run_format(req),
     "bytecode" => bytecode::run(req),
     "bytes" => bytecode::run_bytes(req),
+    "ctx" => bytecode::run_ctx(req),
     "include" => include::run(req),
     "stepwise" => stepwise::run(req),
     _ => json!({"error":"unknown mode"}),
